@@ -24,6 +24,7 @@ RULE += (
 RULE += (
          'A second grouping variable asked around the first. ')
 RULE += ('Round 9: the same compiled template rendered again from inside the loop body. ')
+RULE += ('Round 10: (key, value) pairs whose values are tuples of two; sequence-var-x over elements of which some have no x. ')
 ASSUMPTIONS = [
     'sequence-key is only defined for 2-tuple elements; letters only for '
     'index < 26; sort keys are unique, or tie in which case a sort keeps '
